@@ -274,6 +274,7 @@ func verifMapRangers() []string     { return nil }
 
 func verifSetNumCPU(n int)        {}
 func verifGoOrder(perm []int)     {}
+func verifMapOrderBudget(n int)   {}
 func verifTraceStart()            {}
 func verifTraceEvent(kind string) {}
 func verifScheduleCheck(cpus int, stepEncoding int) {}
